@@ -296,7 +296,8 @@ def run(ctx):
         from .. import tables
         btabs = tables.builtin_tables()
         bt_labels = {t[0]: t[4] for t in btabs}
-        items = [("table", t) for t in table] + [("nest", t) for t in nests] + [("btable", t[:4]) for t in btabs] + [("cell", c) for c in cells] + [("fault", f) for f in faults]
+        hmtabs = tables.hashmap_tables()
+        items = [("table", t) for t in table] + [("nest", t) for t in nests] + [("btable", t[:4]) for t in btabs] + [("hashmap", t[:4]) for t in hmtabs] + [("cell", c) for c in cells] + [("fault", f) for f in faults]
         cen = [("census", (n, t, e, 1)) for n, t, e in sweep.census_cells()]
         hostile = sweep.collision_string_programs(plain, ctx.rng("collide"), want=ctx.n(6, 40))
         ctx.require(len(hostile) >= 3, "could not find hash-colliding string pairs")
@@ -319,7 +320,7 @@ def run(ctx):
             for eng, res in (("native", o.native), ("vm", o.vm)):
                 if eng == "native" and not o.built:
                     cell_hist["native:skip-build-failed"] = cell_hist.get("native:skip-build-failed", 0) + 1
-                    if kind in ("table", "fault", "nest", "btable"):
+                    if kind in ("table", "fault", "nest", "btable", "hashmap"):
                         ctx.violation("%s|%s|native-build" % (kind, name), "table program %s does not build natively: %s" % (name, engines.classify_nanoc_failure(o.nanoc)),
                                       {"main.nano": text, "nanoc.stderr": o.nanoc.err})
                     continue
@@ -328,6 +329,17 @@ def run(ctx):
                 if kind == "census":
                     mm = re.search(r"<<S\n(.*?)>>E\n", got, re.S)
                     got = mm.group(1) if mm else got
+                if kind == "hashmap":
+                    if "SENTINEL" not in got:
+                        ctx.violation("hashmap|%s|%s|truncated" % (name, eng), "%s: %s run of the hashmap table ended early (status %s): %s" % (name, eng, res.status, res.errtext()[-300:]),
+                                      {"main.nano": text, "stdout": res.out})
+                        continue
+                    bt_cells[eng] += ncell
+                    fb = tables.hashmap_first_bad(want, got)
+                    if fb:
+                        ctx.violation("hashmap|%s|%s|%s" % (name, fb[0], eng), "hashmap table %s, map size %s on %s: expected '%s' got '%s' (output line %d)" % (
+                            name, fb[0], eng, fb[2], fb[3], fb[1]), {"main.nano": text, "expected.stdout": want, eng + ".stdout": res.out})
+                    continue
                 if kind == "btable":
                     bad = tables.judge_lines(want, got) if "SENTINEL" in got else None
                     if bad is None:
